@@ -45,7 +45,17 @@ def observe_running(w: progs.World, label: str, problems: List[str], records: Li
     from stackscope._lowlevel import InspectionWarning
 
     ws = [str(x.message)[:160] for x in caught if issubclass(x.category, InspectionWarning)]
-    records.append({"label": label, "lasti": f.f_lasti, "got": got})
+    try:
+        det = lowlevel.inspect_frame(f)
+        blocks, depth = [[b.handler, b.level] for b in det.blocks], len(det.stack)
+        from stackscope import _lowlevel_cpython_311 as impl
+
+        if impl.FrameObject.from_address(id(f)).f_frame.contents.stacktop != -1:
+            depth = None       # the frame made an inlined call: its stack pointer is saved, nothing is trimmed
+    except Exception as e:
+        blocks, depth = None, None
+        problems.append(f"{label}: inspect_frame raised {type(e).__name__}: {e}")
+    records.append({"label": label, "lasti": f.f_lasti, "got": got, "blocks": blocks, "depth": depth, "code": f.f_code})
     if got != want:
         problems.append(f"{label} (f_lasti={f.f_lasti}): contexts {got}, the event log says {want}")
     if ws:
@@ -59,8 +69,8 @@ class C02(PropCheck):
             "generator, running coroutine and running async generator; 3 (quick) / 8 (thorough) choice lists per program; "
             "non-trivial = a probe fired inside __exit__/__aexit__ or with a manager active; distinct = (program, choices)")
     manifest = {
-        "text": "Lean (shared with C01, file SSProps/C01.lean and SSProps/C02.lean): the table walk and the join, plus C02_first_cover (for a running frame the value stack is trimmed to the depth of the first table entry covering f_lasti, 0 if none — a pure table lookup), C02_trim_keeps_exits (every with-handler on the chain from f_lasti has level <= the trim depth when the table is nested properly, so trimming never loses a manager), C02_exiting_send_cache (the matcher recognises an __aexit__ in progress also when f_lasti rests on SEND's inline cache entry: the repaired F1). The exactness claim for compiler output is measured: probes inside the body and inside every __enter__/__exit__/__aenter__/__aexit__ of generated programs, all four frame kinds, compared with the event log.",
-        "note": "Partial (as C01): no proof that CPython only emits code on which the chain equals the event-log truth. `obj` of an exiting manager is read from the next frame's first argument: known finding F12 (an __aexit__ that delegates to a foreign coroutine) is outside the generated space.",
+        "text": "Lean (M-A, shared with C01): C02_first_cover (for a frame whose stack pointer is not saved the value stack is trimmed at the depth of the first table entry covering f_lasti, 0 if none — and that is exactly the depth the interpreter itself would pop the stack to if an exception were raised there, so every slot below it is live), C02_no_handler_empty, C02_innermost_level and C02_innermost_slot_in_range (the innermost block of the walk sits exactly at the trim depth: its slot is the last one of the trimmed stack). Tie: for every probe point the real inspect_frame's blocks and, when the interpreter frame's stacktop is -1, the length of the stack it read are compared with the model's walk and firstCover on the real table bytes. The exactness claim for compiler output is measured: probes inside the body and inside every __enter__/__exit__/__aenter__/__aexit__ of generated programs, all four frame kinds, compared with the event log.",
+        "note": "Partial (as C01): no proof that CPython only emits code on which the chain equals the event-log truth, nor that the levels of outer with-handlers lie below the trim depth. `obj` of an exiting manager is read from the next frame's first argument: an __aexit__ that delegates to a foreign coroutine (F12, undecided) is outside the generated space. F1 (SEND inline cache) was repaired in /repo.",
     }
     assumptions = ["f_lasti of a running frame rests on the last code unit of the executing instruction (3.12)"]
 
@@ -94,14 +104,28 @@ class C02(PropCheck):
         progs.run_program(src, case["kind"], case["choices"], obs)
         self._probs = probs
         case["_obs"] = len(recs)
+        if recs:
+            code = recs[0]["code"]
+            case["_facts"] = progs.table_facts(code)
+            seen = {}
+            for r in recs:
+                if r["blocks"] is not None and r["code"] is code:
+                    seen.setdefault(r["lasti"], (r["blocks"], r["depth"]))
+            case["_points"] = [(l, dp is not None, bl, dp) for l, (bl, dp) in sorted(seen.items())]
+            if not case["_facts"]["disjoint"]:
+                probs.append("the code object's exception table is not sorted / disjoint: the hypothesis of C02_first_cover is not met")
         case["_in_exit"] = sum("exit" in r["label"] for r in recs)
         return json.dumps([[r["label"], r["lasti"], r["got"]] for r in recs])
 
     def model_line(self, case):
-        return None
+        if "_facts" not in case:
+            return None
+        return progs.table_model_line(case["_facts"], [(l, r) for l, r, _, _ in case["_points"]])
 
     def canon(self, case, real):
-        return real
+        if "_facts" not in case:
+            return real
+        return progs.table_expected(case["_facts"], case["_points"])
 
     def oracle(self, case, real):
         probs = self._all.get(id(case)) or []
@@ -113,7 +137,9 @@ class C02(PropCheck):
         return None
 
     def stats(self, cases, reals):
-        d = {"runs": len(cases), "probes": 0, "probes_in_exit": 0, "by_kind": {}}
+        d = {"runs": len(cases), "probes": 0, "probes_in_exit": 0, "by_kind": {},
+             "tables_compared": sum("_facts" in c for c in cases), "trim_depths_compared": sum(sum(1 for p in c.get("_points", []) if p[1]) for c in cases),
+             "walks_compared": sum(len(c.get("_points", [])) for c in cases)}
         for c in cases:
             d["probes"] += c.get("_obs", 0)
             d["probes_in_exit"] += c.get("_in_exit", 0)
